@@ -40,8 +40,22 @@ Definition zip_w4 : node := NRun [NPrim REVERSE 8; NMod REDUCE [(NCall 1 S21 1 7
 Theorem zip_cache_refuted_index_pre : exists x y, zip_key_pre x = zip_key_pre y /\ zip_deps x <> zip_deps y.
 Proof. exists zip_w3, zip_w4. split; [reflexivity|]. intro H. vm_compute in H. discriminate H. Qed.
 
+(** between 25aa9f6 and 7da4086 [hash_deep] did not feed the handles' names.
+      F ← ⍏ / °F [1 2]     then     G ← ⍏ / °G [1 2]
+    same content, spans, function index; the cached error said "cannot invert F because …";
+      F ← ⊏ / ≡(/F⇌) [1_2 3_9]   then   G ← ⊏ / ≡(/G⇌) [1_2 3_8]: the trace named F *)
+Definition un_n1 : inv_input := ([NCall 70 S11 0 55 1 (NPrim RISE 2) 4], (0, false)).
+Definition un_n2 : inv_input := ([NCall 71 S11 0 55 1 (NPrim RISE 2) 4], (0, false)).
+Theorem inv_cache_names_refuted_pre : exists x y, inv_key_pre_names x = inv_key_pre_names y /\ inv_deps_named x <> inv_deps_named y.
+Proof. exists un_n1, un_n2. split; [reflexivity|]. intro H. vm_compute in H. discriminate H. Qed.
+Definition zip_n1 : node := NRun [NPrim REVERSE 8; NMod REDUCE [(NCall 70 S21 0 66 1 (NPrim SELECT 2) 6, S21)] 5].
+Definition zip_n2 : node := NRun [NPrim REVERSE 8; NMod REDUCE [(NCall 71 S21 0 66 1 (NPrim SELECT 2) 6, S21)] 5].
+Theorem zip_cache_names_refuted_pre : exists x y, zip_key_pre_names x = zip_key_pre_names y /\ zip_deps_named x <> zip_deps_named y.
+Proof. exists zip_n1, zip_n2. split; [reflexivity|]. intro H. vm_compute in H. discriminate H. Qed.
+
 (** the repaired keys tell every one of these pairs apart *)
 Theorem repaired_keys_separate :
   inv_key un_w1 <> inv_key un_w2 /\ inv_key un_w3 <> inv_key un_w4 /\
-  zip_key zip_w1 <> zip_key zip_w2 /\ zip_key zip_w3 <> zip_key zip_w4.
+  zip_key zip_w1 <> zip_key zip_w2 /\ zip_key zip_w3 <> zip_key zip_w4 /\
+  inv_key un_n1 <> inv_key un_n2 /\ zip_key zip_n1 <> zip_key zip_n2.
 Proof. repeat split; intro H; vm_compute in H; discriminate H. Qed.
